@@ -27,6 +27,7 @@ class MemTemplates:
         self.variants = {}      # (pretty, 'off'|'nooff') -> Template
         self.align_consts = set()
         self.problems = []
+        self.all = []           # every successful emitting path (key, Template), including ones that differ only in an alignment test
 
 
 def extract_mem(it, row, tabs, configs):
@@ -64,6 +65,7 @@ def extract_mem(it, row, tabs, configs):
             if key in out.variants:
                 out.problems.append('two successful paths for %r' % (key,))
             out.variants[key] = t
+            out.all.append((key, t))
     return out
 
 
@@ -330,8 +332,47 @@ def check_atomic_le(chk, rule, row, summ, site, tu):
         probs.append('address parameter has type %r; needs a 64-bit unsigned address' % (summ['ptypes'][1:2],))
     want = {'atomic.load': '__atomic_load_n', 'atomic.store': '__atomic_store_n',
             'atomic.cmpxchg': '__atomic_compare_exchange_n'}.get(cls) or ATOMIC_BUILTIN[sem['op']]
+    def operand_zero_test(p):
+        """the path's decisions are only comparisons of the wrapped value operand with 0 -> True (operand == 0) / False (!= 0) / None"""
+        verdict = None
+        rels = []
+        for c, taken, _l in p.decisions:
+            c = pe.norm_cond(c)
+            while is_sym(c) and c.op == '!':
+                taken = not taken
+                c = pe.norm_cond(c.args[0])
+            if is_sym(c) and c.op in ('==', '!=') and len(c.args) == 2:
+                x_, y_ = c.args
+                if x_ == 0:
+                    x_, y_ = y_, x_
+                rels.append((c.op if taken else {'==': '!=', '!=': '=='}[c.op], x_, y_))
+            elif is_sym(c):
+                rels.append(('!=' if taken else '==', c, 0))        # a value tested for truth
+            else:
+                return None
+        if not rels:
+            return None
+        for rop, a_, b_ in rels:
+            if b_ != 0 or rop not in ('==', '!='):
+                return None
+            s_ = runtime.sym_slice(a_) if is_sym(a_) else ('top',)
+            if s_[0] != 'slice' or s_[1] != pe.unk('value') or min(s_[2], s_[4]) != access:
+                return None
+            v_ = rop == '=='
+            if verdict is not None and verdict != v_:
+                return None
+            verdict = v_
+        return verdict
+    zero_case = {}
     if len(summ['paths']) != 1:
-        probs.append('%d paths through the function, expected straight-line code' % len(summ['paths']))
+        # the only recognised branching: a shortcut for a zero operand of an operator whose identity is 0 (x op 0 == x), where an
+        # atomic load is a valid linearisation of the read-modify-write
+        for p in summ['paths']:
+            zero_case[id(p)] = operand_zero_test(p)
+        if cls != 'atomic.rmw' or sem.get('op') not in ('add', 'sub', 'or', 'xor') or len(summ['paths']) != 2 or \
+                sorted(zero_case.values(), key=str) != [False, True]:
+            probs.append('%d paths through the function, expected straight-line code' % len(summ['paths']))
+            zero_case = {}
     for p in summ['paths']:
         ev = mem_events(p)
         at = [e for e in ev if e[0] == 'atomic']
@@ -341,8 +382,9 @@ def check_atomic_le(chk, rule, row, summ, site, tu):
             continue
         args = at[0][1]
         name = args[0]
-        if name != want:
-            probs.append('uses %s, specification requires %s' % (name, want))
+        want_p = '__atomic_load_n' if zero_case.get(id(p)) is True else want
+        if name != want_p:
+            probs.append('uses %s, specification requires %s' % (name, want_p))
         if not mem_location(args[1]):
             probs.append('operates on %r, expected &mem->data[addr]' % (args[1],))
         ptr_w = args[-1]
